@@ -222,8 +222,30 @@ def validate_trace(events_path, workdir, nshards=None, timeout=3000, module="Tra
 
 
 # ---------------------------------------------------------------- model checking
-def model_check(module, cfg, name, workers=8, timeout=1800, xmx="8g", extra=()):
+def spec_hash(*names):
+    h = hashlib.sha256()
+    for fn in sorted(os.listdir(SPEC)):
+        if fn.endswith(".tla") or fn in names:
+            h.update(fn.encode())
+            h.update(open(os.path.join(SPEC, fn), "rb").read())
+    return h
+
+
+def model_check(module, cfg, name, workers=8, timeout=7200, xmx="8g", extra=()):
     t0 = time.time()
+    # model checking reads nothing from /repo: its result is a pure function of the specification files and the
+    # configuration, so an identical run is not repeated (several properties share MC_Pipeline / MC_Lemmas / MC_Render)
+    h = spec_hash(cfg)
+    h.update(("|".join([module, cfg, *extra])).encode())
+    cpath = os.path.join(WORK, "cache", "mc_" + h.hexdigest() + ".json")
+    if os.path.exists(cpath) and not os.environ.get("VERIF_NO_CACHE"):
+        try:
+            r = json.load(open(cpath))
+            r["cached"] = True
+            log(f"[mc] {module} {cfg}: result of the identical specification reused ({r['states']} states, {r['distinct']} distinct, originally {r['wall']:.1f}s)")
+            return r
+        except Exception:
+            pass
     rc, out = tlc(module, cfg, os.path.join(WORK, "mc_" + name), workers=workers, timeout=timeout, xmx=xmx, extra=extra)
     r = parse_tlc(out)
     r["rc"], r["wall"], r["out"] = rc, time.time() - t0, out
@@ -232,4 +254,8 @@ def model_check(module, cfg, name, workers=8, timeout=1800, xmx="8g", extra=()):
         tail = "\n".join(out.splitlines()[-40:])
         raise ToolError(f"model checking {module}/{cfg} did not complete cleanly (rc={rc}); the specification contradicts itself or TLC failed:\n{tail}")
     log(f"[mc] {module} {cfg}: {r['states']} states, {r['distinct']} distinct, {r['wall']:.1f}s")
+    os.makedirs(os.path.dirname(cpath), exist_ok=True)
+    tmp = cpath + f".{os.getpid()}.tmp"
+    json.dump({k: v for k, v in r.items() if k != "out"}, open(tmp, "w"))
+    os.replace(tmp, cpath)
     return r
